@@ -295,3 +295,113 @@ def reconstruction_check(ctx, prog, classes, exceptions):
                                detail="%s.%s() builds self.__class__(...) without %s; the override must set %s on the result" % (
                                    base[0].name, f.name, p, ", ".join(sorted(attrs))), loc=ctx.nodeloc(f, c))
     return sites
+
+
+# --------------------------------------------------------------------------- attribute definedness along the constructor chain
+def _self_defs(fnode):
+    """attributes a function binds on self (plain stores; `self.x += 1` reads first and does not count); "*" = dynamic"""
+    out = set()
+    aug = set(id(x.target) for x in ast.walk(fnode) if isinstance(x, ast.AugAssign))
+    for x in ast.walk(fnode):
+        if isinstance(x, ast.Attribute) and isinstance(x.ctx, ast.Store) and isinstance(x.value, ast.Name) and x.value.id == "self" \
+                and id(x) not in aug:
+            out.add(x.attr)
+        if isinstance(x, ast.Call) and norm.call_name(x) == "setattr" and x.args and isinstance(x.args[0], ast.Name) and x.args[0].id == "self":
+            out.add("*")
+        if isinstance(x, ast.Attribute) and x.attr == "__dict__":
+            out.add("*")
+    return out
+
+
+def constructor_defs(prog, K):
+    """attributes bound on self by constructing K: K's resolved __init__, the base constructors it calls (Base.__init__(self, ...),
+    super().__init__(...)), and the self-methods those call, all resolved for K"""
+    out = set()
+    seen = set()
+
+    def run(func, depth=0):
+        if func is None or func.qualname in seen or depth > 6:
+            return
+        seen.add(func.qualname)
+        out.update(_self_defs(func.node))
+        for c in norm.calls_in(func.node):
+            if not isinstance(c.func, ast.Attribute):
+                continue
+            recv = c.func.value
+            if isinstance(recv, ast.Name) and recv.id == "self":
+                run(prog.lookup(K, c.func.attr), depth + 1)
+            elif isinstance(recv, ast.Call) and norm.call_name(recv) == "super":
+                m = [k for k in prog.mro(K) if not isinstance(k, str)]
+                i = m.index(func.cls) if func.cls in m else -1
+                for k in m[i + 1:]:
+                    if c.func.attr in k.methods:
+                        run(k.methods[c.func.attr], depth + 1)
+                        break
+            elif c.args and isinstance(c.args[0], ast.Name) and c.args[0].id == "self":
+                r = prog.resolve_in_func(func, recv)
+                if r and r[0] == "class":
+                    run(prog.lookup(r[1], c.func.attr), depth + 1)
+    run(prog.lookup(K, "__init__"))
+    return out
+
+
+def undefined_attribute_reads(prog, K, entry_names=None):
+    """(attribute, reading function, line, entry method) for every `self.X` read in a method reachable -- through self-calls resolved for
+    K -- from K's public methods (or `entry_names`), where X is bound only by a constructor that constructing K never runs.
+    Attributes that any non-constructor method or the class body binds, that are methods/properties, or whose reader tests
+    hasattr/catches AttributeError are not reported; classes with foreign bases or dynamic attribute binding are skipped."""
+    mro_all = prog.mro(K)
+    if any(isinstance(k, str) and k != "object" for k in mro_all):
+        return []
+    mro = [k for k in mro_all if not isinstance(k, str)]
+    got = constructor_defs(prog, K)
+    if "*" in got:
+        return []
+    other, initonly = set(), set()
+    for k in mro:
+        for nm, f in k.methods.items():
+            if nm == "__init__":
+                initonly |= _self_defs(f.node)
+            else:
+                other |= _self_defs(f.node)
+        other |= set(k.methods.keys())
+        for st in k.node.body:
+            if isinstance(st, ast.Assign):
+                for t in st.targets:
+                    if isinstance(t, ast.Name):
+                        other.add(t.id)
+    if "*" in other:
+        return []
+    missing = initonly - got - other
+    if not missing:
+        return []
+    resolved = {}
+    for k in mro:
+        for nm, f in k.methods.items():
+            resolved.setdefault(nm, f)
+    entries = [nm for nm in resolved if nm != "__init__" and (not nm.startswith("_") or (nm.startswith("__") and nm.endswith("__")))]
+    if entry_names is not None:
+        entries = [nm for nm in entries if nm in entry_names]
+    out = []
+    reported = set()
+    for entry in sorted(entries):
+        seen = set()
+        work = [entry]
+        while work:
+            nm = work.pop()
+            if nm in seen or nm not in resolved or nm == "__init__":
+                continue
+            seen.add(nm)
+            f = resolved[nm]
+            guarded = any(norm.call_name(c) == "hasattr" for c in norm.calls_in(f.node)) or \
+                any(isinstance(h.type, ast.Name) and h.type.id == "AttributeError" for t_ in ast.walk(f.node) if isinstance(t_, ast.Try)
+                    for h in t_.handlers if h.type is not None)
+            for x in ast.walk(f.node):
+                if isinstance(x, ast.Attribute) and isinstance(x.ctx, ast.Load) and isinstance(x.value, ast.Name) and x.value.id == "self":
+                    if x.attr in missing and not guarded and (x.attr, f.qualname) not in reported:
+                        reported.add((x.attr, f.qualname))
+                        out.append((x.attr, f, x.lineno, entry))
+            for c in norm.calls_in(f.node):
+                if isinstance(c.func, ast.Attribute) and isinstance(c.func.value, ast.Name) and c.func.value.id == "self":
+                    work.append(c.func.attr)
+    return out
